@@ -43,6 +43,8 @@ type C15Case struct {
 	Foreign     bool     `json:"foreign_state"`
 	// Fault: additionally re-run the case with one tool failure and judge the reject log, panics and convergence
 	Fault *faultSpec `json:"fault,omitempty"`
+	// Exec: "" | ipset | iptables - the manager under test uses galaxy's exec-backed runner for that tool
+	Exec string `json:"exec_mode,omitempty"`
 }
 
 // faultSpec: the K-th ipset / iptables operation of one entry-point call fails once (the tool fails, nothing reaches
@@ -97,6 +99,12 @@ func genEvents(rng *rand.Rand, start *Cluster, o genOpts, n int) []Event {
 			i := rng.Intn(len(m.Policies))
 			p := genPolicy(rng, m, m.Policies[i].Name)
 			p.NS = m.Policies[i].NS
+			if rng.Intn(4) == 0 {
+				// only an address block changes sides (except <-> plain)
+				if q := (&Cluster{Policies: []Policy{m.Policies[i]}}).clone().Policies[0]; flipIPBlock(rng, &q) {
+					p = q
+				}
+			}
 			m.Policies[i] = p
 			evs = append(evs, Event{Kind: "policy-update", Policy: &p})
 		case k < 7:
@@ -157,6 +165,19 @@ func genEvents(rng *rand.Rand, start *Cluster, o genOpts, n int) []Event {
 }
 
 func genC15Case(rng *rand.Rand, idx int, o genOpts) *C15Case {
+	cs := genC15CaseInner(rng, idx, o)
+	// every 4th case drives the exec-backed ipset runner, every other 4th the exec-backed iptables runner. The mode index
+	// is idx mod 10, so all (mode, exec) combinations occur.
+	switch (idx / len(c15Modes)) % 4 {
+	case 1:
+		cs.Exec = "ipset"
+	case 3:
+		cs.Exec = "iptables"
+	}
+	return cs
+}
+
+func genC15CaseInner(rng *rand.Rand, idx int, o genOpts) *C15Case {
 	cs := &C15Case{Mode: c15Modes[idx%len(c15Modes)], PriorSyncs: 1 + rng.Intn(2), Foreign: rng.Float64() < 0.7}
 	// the C16 focus shapes double as policy-shape diversity here
 	focus := rng.Intn(len(focusNames))
@@ -879,9 +900,10 @@ func stripNames(s string) string { return hashLike.ReplaceAllString(s, "#") }
 // ---- the case ----
 
 type c15Result struct {
-	counters   map[string]int64
-	viols      map[string]*violation
-	nontrivial bool
+	counters     map[string]int64
+	viols        map[string]*violation
+	nontrivial   bool
+	inconclusive string
 	// per entry-point call ("sync", "event:<i>"): operations issued and signatures of rejected commands, fault-free
 	callOps     map[string][2]int
 	callBases   map[string]map[string]bool
@@ -1122,7 +1144,7 @@ func evalC15Base(cs *C15Case) *c15Result {
 	res := &c15Result{counters: map[string]int64{}, viols: map[string]*violation{}, callOps: map[string][2]int{},
 		callBases: map[string]map[string]bool{}}
 	w := newWorld()
-	e := newEnv(w)
+	e := newEnvMode(w, cs.Exec)
 	if cs.Foreign {
 		if err := plantForeign(e); err != nil {
 			res.addViol("polsim-harness-plant-foreign-failed", err.Error(), nil)
@@ -1416,6 +1438,9 @@ func evalC15Base(cs *C15Case) *c15Result {
 				map[string]interface{}{"object": k, "before": foreign0[k], "after": foreign1[k]})
 		}
 	}
+	if u := e.execReport(res.counters); u != "" {
+		res.inconclusive = "exec interpreter met an unknown command: " + u
+	}
 	return res
 }
 
@@ -1428,7 +1453,7 @@ func evalC15Fault(cs *C15Case, f *faultSpec, base *c15Result) *c15Result {
 	res := &c15Result{counters: map[string]int64{}, viols: map[string]*violation{}}
 	under := "-under-" + f.Kind + "-op-fault"
 	w := newWorld()
-	e := newEnv(w)
+	e := newEnvMode(w, cs.Exec)
 	if cs.Foreign {
 		if plantForeign(e) != nil {
 			return res
@@ -1624,6 +1649,9 @@ func c15Reductions(cs *C15Case) []*C15Case {
 	}
 	if cs.CacheAhead > 0 {
 		with(func(n *C15Case) { n.CacheAhead-- })
+	}
+	if cs.Exec != "" {
+		with(func(n *C15Case) { n.Exec = "" })
 	}
 	if cs.Foreign {
 		with(func(n *C15Case) { n.Foreign = false })
